@@ -4,7 +4,7 @@
 HERE="$(cd "$(dirname "${BASH_SOURCE[0]}")/.." && pwd)"
 export VERIF_DIR="$HERE"
 BIN="$HERE/harness/target/debug/vharness"
-[ -x "$BIN" ] || { (cd "$HERE/harness" && cargo build --offline >/dev/null 2>&1); }
+(cd "$HERE/harness" && cargo build --offline -q >/dev/null 2>&1)   # always: a mutant run may have left a stale binary
 TIER="${4:-quick}"
 for s in $(seq "$2" "$3"); do
   for p in $1; do
